@@ -36,7 +36,7 @@ func TestVerifFallbackCBMetadata(t *testing.T) {
 		logger.InitDefaultLogger("error")
 	}
 	var mu sync.Mutex
-	docs := map[string]bool{}     // documents that exist
+	docs := map[string]bool{}    // documents that exist
 	xattr := map[string][]byte{} // key -> checkpoint xattr
 	writes := map[string]int{}
 	reject := ""
